@@ -111,11 +111,14 @@ OPEN_TUPLES = ["tuple[int, typing.Any]", "tuple[str, int, object]", "tuple[int, 
                "dict[str, tuple[str, object]]", "typing.Optional[tuple[int, typing.Any]]", "tuple[int, str]",
                # str-keyed mappings: a Python-literal text may carry keys of any class, the result may not
                "dict[str, int]", "typing.Mapping[str, int]", "typing.MutableMapping[str, typing.List[int]]", "list[dict[str, int]]",
-               "typing.Union[int, typing.Dict[str, int]]", "dict[str, dict[str, int]]"]
+               "typing.Union[int, typing.Dict[str, int]]", "dict[str, dict[str, int]]",
+               # binary targets: a binary object of ANOTHER binary class is an input like any other, the result is of the target class
+               "bytes", "bytearray", "list[bytes]", "dict[str, bytes]", "typing.Union[int, bytes]", "tuple[int, bytes]"]
 OPEN_INPUTS = ["['1', '2', '3']", "['1']", "'[1, 2, 3, 4]'", "[]", "{'a': 1, 'b': 2}", "['1', '2']", "(1,)", "[['1', '2'], ['3'], ['4', '5', '6']]",
                "{'k': ['a']}", "{'k': ['a', 'b', 'c']}", "None", "'ab'",
                "'{1: 2}'", "b\"{1: 2, 3: '4'}\"", "'{None: 1, True: 2}'", "'{(1, 2): 3}'", "\"{b'a': 1}\"", "'{1.5: [1, 2]}'", "['{1: 2}', {'a': 1}]",
-               "{'k': '{1: 2}'}", "bytearray(b'{7: 8}')", "{1: 2}"]
+               "{'k': '{1: 2}'}", "bytearray(b'{7: 8}')", "{1: 2}",
+               "bytearray(b'abc')", "memoryview(b'abc')", "b'abc'", "[bytearray(b'a'), b'b']", "{'k': memoryview(b'q')}", "(1, bytearray(b'z'))"]
 
 
 def _open_child(ann):
